@@ -211,7 +211,7 @@ def frame_token(fr):
     return f'{type(fr).__name__}:{C.hexs(fr.data)}:{dec}'
 
 
-def run_impl(script, retries, delay, reqs, loglevel=None, backend='stub', bauds=(115200, None), alarm_s=30):
+def run_impl(script, retries, delay, reqs, loglevel=None, backend='stub', bauds=(115200, None), alarm_s=30, idle_before=()):
     """Runs a sequence of requests on ONE server object (a scripted subclass of the base class, or the real serial
     backend over a scripted line). reqs: list of (op, frame-builder).
     Returns the canonical string (same format as the driver's `reqs` command)."""
@@ -236,8 +236,10 @@ def run_impl(script, retries, delay, reqs, loglevel=None, backend='stub', bauds=
                 nh = logging.StreamHandler(open('/dev/null', 'w'))
                 nh.setLevel(logging.DEBUG)
                 lg.addHandler(nh)
-        for op, build in reqs:
+        for k_req, (op, build) in enumerate(reqs):
             del trace[:]
+            if k_req < len(idle_before):
+                clock.ms += idle_before[k_req]          # time that passes before the request is issued (nothing is read meanwhile)
             t0 = clock.ms
             sent0 = srv.serial_port.n_sent if backend == 'tty' else 0
             signal.alarm(alarm_s)
@@ -335,7 +337,9 @@ def chunk(rng, data, mode, dts):
 
 def inert_traffic(rng, filt, extra_cids=()):
     """Traffic that is not an answer-class frame: NMEA, other UBX messages, noise without sync pair."""
-    k = rng.choice(['nmea', 'ubx', 'noise', 'none', 'none'])
+    k = rng.choice(['nmea', 'ubx', 'noise', 'none', 'none', 'json'])
+    if k == 'json':       # gpsd's own reports travel on the same socket as the raw receiver data
+        return rng.choice([b'{"class":"TPV","device":"/dev/ttyS3","mode":3}\r\n', b'{"class":"SKY","satellites":[]}\r\n{"class":"TPV"}\r\n', b'{"class":"DEVICE","path":"/dev/pps0"}\r\n'])
     if k == 'nmea':
         return G.nmea(b'GPRMC,12,A')
     if k == 'ubx':
